@@ -134,3 +134,18 @@ Proof.
   replace ((group_first_block s (g + 1) =? 0) && (blocksize s =? 1024)) with false by lia.
   rewrite Hg1. destruct (bg_has_super s (g + 1)); reflexivity.
 Qed.
+
+(* sparse_super2: the iterator yields the recorded backup groups (those that are not 0), each once,
+   in order, and the group count from then on *)
+Lemma ss2_tail : forall n b0 b1 gdc, list_backups_ss2_n n b0 b1 gdc 3 = repeat gdc n.
+Proof. induction n as [|n IH]; intros; cbn [list_backups_ss2_n repeat]; [reflexivity|]. unfold list_backups_ss2_step. cbn. f_equal. apply IH. Qed.
+
+Lemma ss2_enum_lemma b0 b1 gdc n :
+  list_backups_ss2_n (3 + n) b0 b1 gdc 1 =
+  firstn 3 ((if b0 =? 0 then [] else [b0]) ++ (if b1 =? 0 then [] else [b1]) ++ [gdc; gdc; gdc]) ++
+  repeat gdc n.
+Proof.
+  change (3 + n)%nat with (S (S (S n))). cbn [list_backups_ss2_n]. unfold list_backups_ss2_step.
+  destruct (b0 =? 0) eqn:E0; destruct (b1 =? 0) eqn:E1; cbn [N.eqb Pos.eqb negb app firstn];
+    rewrite ?E0, ?E1; cbn [N.eqb Pos.eqb negb app firstn]; rewrite ?ss2_tail; reflexivity.
+Qed.
